@@ -220,7 +220,7 @@ func JudgeC09(c *Ctx, h *History, obs []*Obs) ([]Violation, error) {
 			continue
 		}
 		if o.Stderr != ref.Stderr {
-			out = append(out, Violation{Property: "C09", Class: "diagnostic-differs", OpIndex: o.OpIndex,
+			out = append(out, Violation{Property: "C09", Class: "diagnostic-differs" + sfx, OpIndex: o.OpIndex,
 				Msg: "diagnostic differs from clean-tree reference: " + firstDiff(o.Stderr, ref.Stderr)})
 			continue
 		}
